@@ -312,8 +312,20 @@ simple('last', '*', '=', lambda n, e: rs.ops.last(), lambda n, c: M.EmptyGuard(c
 simple('take', '*', '=', lambda n, e: rs.ops.take(n[1]), lambda n, c: M.Take(c, n[1]), stateful=True, early=True)
 simple('to_list', '*', lambda t, n: listof(t), lambda n, e: rs.data.to_list(), lambda n, c: M.Scan(acc_append, list, True),
        stateful=True, ct=True)
-simple('to_array', INTLIKE, 'list', lambda n, e: rs.data.to_array('q'),
-       lambda n, c: M.Scan(acc_append, lambda: array('q'), True), stateful=True, ct=True)
+def _to_array_build(n, e):
+    tc = n[1] if len(n) > 1 else 'q'
+    if tc == 'u':           # the character typecode: items are one-character strings
+        return rx.pipe(rs.ops.map(lambda x: chr(97 + x % 26)), rs.data.to_array('u'))
+    return rs.data.to_array(tc)
+
+
+def _to_array_model(n, c):
+    tc = n[1] if len(n) > 1 else 'q'
+    scan = M.Scan(acc_append, lambda: array(tc), True)
+    return M.Chain(c, [M.Map(lambda x: chr(97 + x % 26)), scan]) if tc == 'u' else scan
+
+
+simple('to_array', INTLIKE, 'list', _to_array_build, _to_array_model, stateful=True, ct=True)
 simple('batch', '*', lambda t, n: listof(t), lambda n, e: rs.data.batch(n[1]), lambda n, c: M.Batch(n[1]), stateful=True, ct=True)
 
 
